@@ -125,17 +125,99 @@ func classC13Npm(c *npmCase) []string {
 	return nil
 }
 
-func c13TempDir() (string, error) {
+// workspace is the per-process scratch directory of the C13 checks. Creating and
+// removing directories per case dominated the run time, so the directory layout is made
+// once and input files are overwritten in place; output files of the previous case are
+// removed so that a writer that does not write is noticed.
+type workspace struct {
+	root  string
+	dirs  map[string]bool
+	files map[string]bool // relative paths that currently exist
+}
+
+var c13WS *workspace
+
+func c13Workspace() (*workspace, error) {
+	if c13WS != nil {
+		return c13WS, nil
+	}
 	base := os.Getenv("VERIF_SCRATCH")
 	if base == "" {
 		base = os.TempDir()
-	} else {
-		base = filepath.Join(base, "c13")
-		if err := os.MkdirAll(base, 0o755); err != nil {
-			return "", err
+	}
+	if err := os.MkdirAll(base, 0o755); err != nil {
+		return nil, err
+	}
+	root, err := os.MkdirTemp(base, "c13-")
+	if err != nil {
+		return nil, err
+	}
+	c13WS = &workspace{root: root, dirs: map[string]bool{}, files: map[string]bool{}}
+	return c13WS, nil
+}
+
+func (w *workspace) put(rel string, data []byte) error {
+	p := filepath.Join(w.root, rel)
+	if d := filepath.Dir(p); !w.dirs[d] {
+		if err := os.MkdirAll(d, 0o755); err != nil {
+			return err
+		}
+		w.dirs[d] = true
+	}
+	w.files[rel] = true
+	// No O_TRUNC: truncating an existing file to zero and rewriting it makes ext4 flush on
+	// close; overwrite in place and cut to length instead.
+	f, err := os.OpenFile(p, os.O_WRONLY|os.O_CREATE, 0o644)
+	if err != nil {
+		return err
+	}
+	if _, err := f.Write(data); err != nil {
+		f.Close()
+		return err
+	}
+	if err := f.Truncate(int64(len(data))); err != nil {
+		f.Close()
+		return err
+	}
+	return f.Close()
+}
+
+// reset prepares the workspace for a case that uses the given input files: other input
+// files are removed, existing output files are overwritten with the stale marker.
+func (w *workspace) reset(inputs map[string]bool) error {
+	for rel := range w.files {
+		switch {
+		case strings.HasPrefix(rel, "in/"):
+			if !inputs[rel] {
+				if err := os.Remove(filepath.Join(w.root, rel)); err != nil && !os.IsNotExist(err) {
+					return err
+				}
+				delete(w.files, rel)
+			}
+		case strings.HasPrefix(rel, "out/"):
+			if err := os.Remove(filepath.Join(w.root, rel)); err != nil && !os.IsNotExist(err) {
+				return err
+			}
+			delete(w.files, rel)
 		}
 	}
-	return os.MkdirTemp(base, "case-")
+	return nil
+}
+
+// output reads a file the writer was asked to produce.
+func (w *workspace) output(rel string) ([]byte, error) {
+	b, err := os.ReadFile(filepath.Join(w.root, rel))
+	if err != nil {
+		return nil, err
+	}
+	w.files[rel] = true
+	return b, nil
+}
+
+func (w *workspace) cleanup() {
+	if w != nil {
+		_ = os.RemoveAll(w.root)
+	}
 }
 
 func reqString(r verifhooks.Requirement) string {
@@ -204,16 +286,19 @@ func propC13Npm(c *npmCase) (ev.Outcome, error) {
 	if c.Doc.T != "o" {
 		return o, fmt.Errorf("bad case: document is not an object")
 	}
-	dir, err := c13TempDir()
+	ws, err := c13Workspace()
 	if err != nil {
 		return o, fmt.Errorf("harness: %v", err)
 	}
-	defer os.RemoveAll(dir)
-	in := renderJSON(c.Doc, c.Layout)
-	if err := os.WriteFile(filepath.Join(dir, "package.json"), in, 0o644); err != nil {
+	if err := ws.reset(map[string]bool{"in/package.json": true}); err != nil {
 		return o, fmt.Errorf("harness: %v", err)
 	}
-	fsys := scalibrfs.DirFS(dir)
+	in := renderJSON(c.Doc, c.Layout)
+	if err := ws.put("in/package.json", in); err != nil {
+		return o, fmt.Errorf("harness: %v", err)
+	}
+	dir := ws.root
+	fsys := scalibrfs.DirFS(filepath.Join(dir, "in"))
 	reqsIn, err := verifhooks.ReadManifest(resolve.NPM, fsys, "package.json")
 	if err != nil {
 		return o, fmt.Errorf("bad case: generated package.json is not readable: %v\n%s", err, in)
@@ -265,7 +350,7 @@ func propC13Npm(c *npmCase) (ev.Outcome, error) {
 		o.Classes = append(o.Classes, "npm_write_error")
 		return o, nil
 	}
-	got, err := os.ReadFile(out)
+	got, err := ws.output("out/package.json")
 	if err != nil {
 		return o, fmt.Errorf("Write returned nil but the output file is missing: %v", err)
 	}
